@@ -45,8 +45,8 @@ ASSUMPTIONS = {
     "C01": ["attribute access is only demanded for identifier names outside dir(DataFrame()) and "
             "ATTRIBUTES", "scalar assignment to a frame with columns but 0 rows may raise or store "
             "an empty column"],
-    "C06": ["after an operation that raised only C01's invariants are demanded of its operands; "
-            "bystander frames must still be byte-identical", "object columns: only the pointer "
+    "C06": ["a functional method that raises must leave receiver, arguments and bystanders "
+            "byte-identical as well (tightened after seeded change C06-c; clean on the unchanged tree)", "object columns: only the pointer "
             "array must be unshared", "copy() shares column buffers (modelled), group_by returns "
             "the receiver"],
     "C09": ["rename maps and colnames lists are fresh names or permutations of existing names "
@@ -177,8 +177,8 @@ class World:
                 order = [n for n, c in before[0]] != [n for n, c in now[0]]
                 grp = before[1] != now[1]
                 if diff or ((order or grp) and not any(x[0] == h for x in changed)):
-                    if raised and h in operands:
-                        pass        # only C01 is demanded of the operands of a failed op
+                    if raised and h in operands and kind in INPLACE:
+                        pass        # a failed in-place edit is judged by its own oracle
                     elif kind in INPLACE or kind == "elem_write":
                         self.viol("C06", "alias", f"C06.alias|{kind}|edit-visible-in-another-frame",
                                   f"in-place {kind} on F{op.get('t')} changed F{h} columns {diff} "
